@@ -26,7 +26,9 @@ RULE = (
     "call repeated after all the others in the same process, and a check that no input array was modified. Subset / "
     "absent-label / bool-label requests are only generated inside the domain where the function is defined (see "
     "'excluded_*' counters). The exact models (areas, extents, perimeters, Euler, median (two models), ellipse "
-    "moments (two models), skeleton length, per-object hull area and solidity) are compared with the implementation "
+    "moments (two models), skeleton length, per-object hull area and solidity, calculate_convex_hull_areas as "
+    "written incl. the exact set of requests on which it raises IndexError, minimum enclosing circle (scalar and "
+    "vectorised Chrystal), Feret calipers) are compared with the implementation "
     "on the scene, the absent-label request, the renumbered scene and the padded scene. idiom cases: bincount / "
     "anti-index / offsets / Indexes / table_idx_from_labels against NumPy and centrosome. non-trivial = at least two "
     "objects and at least one object touching another one or nested; distinct by hash of the case")
@@ -34,8 +36,10 @@ TRUSTED = [
     "modelled, not verified: the float numerics of every measurement (sqrt, arctan2, arccos, log, division); "
     "scipy.ndimage.sum/minimum/maximum with an index list (modelled by their specification); NumPy fancy indexing, "
     "lexsort, cumsum",
-    "hull area/solidity, enclosing circle, Feret, Zernike, Haralick: no Coq model, decided by the two-run relations "
-    "on the implementation (floats at 1e-9 relative, ints exact)",
+    "Zernike, Haralick: no Coq model, decided by the two-run relations on the implementation (floats at 1e-9 "
+    "relative, ints exact)",
+    "hull area, enclosing circle, Feret: the Coq models are exact (integers / rationals, squared quantities); the "
+    "final float sqrt / division of the implementation is compared at 1e-9 relative",
 ]
 ASSUMPTIONS = [
     "labels are non-negative and below 2^31; request lists are duplicate-free",
@@ -1478,7 +1482,14 @@ MANIFEST = {
         "(bincount, grouped reductions, anti-index tables, cumulative ragged offsets, same-label-as-neighbour bits) "
         "and of the integer/rational-exact measurements built from them (areas, extents, perimeters, Euler number, "
         "median, ellipse central moments, skeleton length): each is per-object independent, follows a renumbering and "
-        "the request order. The models are tied to the code by exact comparison of complete outputs on generated "
+        "the request order. Composed with C02's convex_hull_ijv and C14's Chrystal / calipers models, whole-call "
+        "theorems without per-run certificates: the rows emitted for a requested label are the hull of that label's "
+        "own pixels; calculate_convex_hull_areas as written (ragged offsets, compaction, modulo wrap) returns, label "
+        "by label, the value of the label's own hull and is independent of every other label; the vectorised "
+        "Chrystal loop equals the per-object one; the circle is the minimum enclosing circle of the label's pixels; "
+        "the maximum Feret diameter is their diameter and the minimum Feret diameter is their minimum width over "
+        "ALL directions (min over edges of max cross^2/|edge|^2 = min over u of (projection extent)^2/|u|^2, exact "
+        "integers). The models are tied to the code by exact comparison of complete outputs on generated "
         "scenes; for all twelve measurements the three relations of the property are evaluated on the "
         "implementation itself (two-run)."),
     "level_note": (
